@@ -26,7 +26,7 @@ from pdfminer.layout import (
     LTTextLineVertical,
 )
 
-from mc.refs.layout_glyphs import HeapBudgetExceeded, install_counting_heapq, make_char, make_figure, make_page, make_rect
+from mc.refs.layout_glyphs import HeapBudgetExceeded, install_counting_heapq, install_stable_id, make_char, make_figure, make_page, make_rect
 
 ID = "C08"
 LEVEL = "model_checking"
@@ -49,7 +49,7 @@ POOL = [
     ("j", 30, 40, 8, 0, "h"),    # zero height
     (" ", 30, 40, 8, 8, "h"),    # blank text after a word gap
     ("v", 10, 48, 8, 8, "v"),    # vertical-font glyph directly above a
-    ("r", 26, 40, 8, 8, "r"),    # rotated matrix (upright False), adjacent to b
+    ("r", 18, 48, 8, 8, "r"),    # rotated matrix (upright False), directly above b and right of v
 ]
 
 FLOWS = [0.5, None, -1, 0, 1]
@@ -108,6 +108,8 @@ META = {
         "glyphs are built directly as LTChar with a stub font; that PDFPageAggregator feeds the same objects is C05/C11's subject",
         "page box fixed at (0,0,100,100), figure box fixed; larger sequences than the bound are not explored",
         "termination is judged by a counted budget on iterations of the box-merging loop (the only unbounded loop), not by time",
+        "ties between equal box distances are broken by id() (memory address) in group_textboxes; the harness substitutes a "
+        "first-asked counter for the name `id` inside pdfminer.layout so that runs are reproducible (address dependence is C12's subject)",
         "numbering 0..n-1 is judged per layout container (page; figure when all_texts)",
         "'one orientation per line' is read as: a line is horizontal or vertical and every pair of consecutive glyphs in it "
         "overlaps on the line's cross axis",
@@ -348,6 +350,7 @@ def analyse(specs, p):
     before = [_snap(o) for o, _ in originals]
     n = len(specs)
     _HEAP.pops = 0
+    install_stable_id().reset()
     _HEAP.budget = 2 * (4 * n * n + 16)  # page + figure; each pair is popped at most twice, each merge adds < n pairs
     try:
         page.analyze(_lap(p))
